@@ -30,7 +30,7 @@ def FLOORS(tier):
          "observe-with-ancillas": 60 if q else 2000, "op:construct-from-raw": 200 if q else 6000, "op:observe-after-cancel_top": 60 if q else 2000, "observe-stale-with-ancillas": 15 if q else 500, "op:derive-then-constraint": 10 if q else 300}
     f.update({"untouched-object-checks": 3000 if q else 10 ** 5, "sibling:shares-mapping-dict": 100, "sibling:source-of-copy": 300,
               "caller-dict-scribbled": 60, "update:same-class-model:into-empty": 20, "update:same-class-model": 60, "update:pairs": 60,
-              "update:other-class-model": 60, "copy-by:times-one": 60, "continued-after-refused-edit": 100, "operand-with-user-mapping-and-stale-variable": 60, "update:argument-with-constraints": 20, "copy-by:neg-neg": 60, "ipow:exponent>=4:model-with-ancillas": 2})
+              "update:other-class-model": 60, "copy-by:times-one": 60, "continued-after-refused-edit": 100, "operand-with-user-mapping-and-stale-variable": 60, "update:argument-with-constraints": 20, "copy-by:neg-neg": 60, "copy-by:deepcopy": 50, "copy-by:power-one": 50, "observe:with-pairs-argument": 40, "ipow:exponent>=4:model-with-ancillas": 2})
     for t in TYPES:
         f["type:" + t] = 150 if q else 5000
     for o in OPS:
@@ -358,10 +358,10 @@ def case(ctx, rng, idx):
             elif op == "refresh":
                 pass   # handled below
             elif op == "copy":
-                how = rng.choice(["copy", "ctor", "times-one", "one-times", "neg-neg", "plus-zero", "over-one", "power-one", "minus-zero"])
+                how = rng.choice(["copy", "ctor", "times-one", "one-times", "neg-neg", "plus-zero", "over-one", "power-one", "minus-zero", "deepcopy"])
                 desc += [how]
                 new = {"copy": lambda: m.copy(), "ctor": lambda: T(m), "times-one": lambda: m * 1, "one-times": lambda: 1 * m,
-                       "neg-neg": lambda: -(-m), "plus-zero": lambda: m + 0, "over-one": lambda: m / 1, "power-one": lambda: m ** 1, "minus-zero": lambda: m - 0}[how]()
+                       "neg-neg": lambda: -(-m), "plus-zero": lambda: m + 0, "over-one": lambda: m / 1, "power-one": lambda: m ** 1, "minus-zero": lambda: m - 0, "deepcopy": lambda: __import__("copy").deepcopy(m)}[how]()
                 ctx.cat("copy-by:" + how)
             elif op == "derive":
                 how = rng.choice(["subs", "round"])
@@ -528,7 +528,14 @@ def case(ctx, rng, idx):
             else:
                 if deg2 and form in ("pubo", "puso"):
                     deg = None
-                ok, D = ctx.call("to_" + form, oracles.call_form, m, form, deg, None, None, _w=w)
+                pairs_ = None
+                tv_ = sorted(oracles.true_vars(m), key=repr)
+                if len(tv_) >= 3 and rng.random() < 0.25:
+                    # the optional `pairs` argument: products the caller wants reduced first (others may still be needed)
+                    pairs_ = {tuple(rng.sample(tv_, 2)) for _ in range(rng.randint(1, 2))}
+                    desc += ["pairs", sorted(pairs_, key=repr)]
+                    ctx.cat("observe:with-pairs-argument")
+                ok, D = ctx.call("to_" + form, oracles.call_form, m, form, deg, None, pairs_, _w=w)
                 form2 = form
             if not ok:
                 return
